@@ -83,6 +83,11 @@ def run(ctx) -> None:
     ctx.check(ok_eager, "R-APPLY", f"{at.qualname}:eager-operands", at.loc(ec), "eager arm applies transform to self",
               f"eager call {norm_text(ec)} is not applied to self", "eager-operands")
     kws = {k.arg: k.value for k in mob.keywords if k.arg}
+    _mob_f = repo.resolve_name(at.module, call_name(mob) or "")
+    if hasattr(_mob_f, "positional_params"):  # arguments may be passed positionally as well
+        from ..model import bind_args
+
+        kws = {**bind_args(mob, _mob_f), **kws}
     lazy_assign = {}
     for st in lazy_arm:
         if isinstance(st, ast.Assign) and len(st.targets) == 1 and isinstance(st.targets[0], ast.Name):
@@ -278,3 +283,22 @@ def run(ctx) -> None:  # noqa: F811
     _inner_run_c01e(ctx)
     if err is not None:
         raise err
+
+
+# ---- added after the seeded change C01-r4seed0: a cached FFT plan never runs on the buffer of an earlier call
+_inner_run_c01f = run
+
+
+def run(ctx) -> None:  # noqa: F811
+    from . import c38
+
+    ctx.rule("R-COPYGUARD", "(shared with C38/C02/C04; the rule lives in c38) the eager multislice loop keeps ONE "
+             "FresnelPropagator, hence one CachedFFTWConvolution, for all frozen-phonon configurations and starts every "
+             "configuration from a fresh copy of the incident waves, while the lazy graph builds a propagator per block. "
+             "A cached plan that can be executed while still bound to the arrays of a previous call transforms (and "
+             "returns) the old buffer: configurations 2..n of the eager run continue from the previous exit wave and "
+             "the eager result differs from the lazy one.  Decided on the CFG of CachedFFTWConvolution.__call__: every "
+             "path to the execution of a plan passes the creation of the plans on the current array or update_arrays "
+             "with it, taking into account which values the cache key can hold")
+    c38._copyguard_cached(ctx, ctx.repo)
+    _inner_run_c01f(ctx)
